@@ -19,11 +19,12 @@ elementary rotations `R_i(θ₁)·R_j(θ₂)·R_h(θ₃)` about the axes decoded
 What is NOT proved here (measured by harness/corr/c11_residue.cpp, see tools/props/c11.py):
 rounding; `toMatrix (extract M) = M` for orders other than XYZ/ZYX and in gimbal neighbourhoods.
 -/
+set_option autoImplicit false
 set_option linter.unusedTactic false
 set_option linter.unreachableTactic false
 set_option linter.unusedSimpArgs false
 namespace ImathVerif.C11
-open ImathVerif ImathVerif.Euler Matrix
+open ImathVerif ImathVerif.Euler Matrix Real
 open ImathVerif.Model.Euler (Bits setOrder order legal angleOrder angleMapping)
 
 /-! ## 1. The order enumeration and its bit packing -/
